@@ -152,6 +152,30 @@ Fixpoint has_space (e : gexpr) : bool :=
 (* the final arm of every DiffOperator.eval: the space-kind check (kinds are not modelled), then no rewriting *)
 Definition atom_check (e : gexpr) : bool := is_atom e && negb (has_space e).     (* true = raises *)
 
+(* has(x, (VectorFunction, NormalVector, Tuple, Matrix, Grad, Rot, Hessian)): something vector-valued occurs in x
+   (walks .args: a component F[i] contains F) *)
+Fixpoint has_vec (e : gexpr) : bool :=
+  match e with
+  | GVF _ | GComp _ _ | GNormal => true
+  | GNum _ _ | GConst _ | GCoord _ | GSF _ => false
+  | GAdd l | GMul l => existsb has_vec l
+  | GPow b x => has_vec b || has_vec x
+  | GFn _ a => has_vec a
+  | G1 o a => match o with OGrad | ORot | OHessian => true | _ => has_vec a end
+  | G2 _ a b => has_vec a || has_vec b
+  end.
+(* _may_be_matrix: an outer product, a Hessian, the gradient of an expression that contains something vector-valued,
+   or a sum / product / restriction / jump / average of such an expression (an over-approximation of "matrix-valued":
+   there is no shape inference in calculus/core.py) *)
+Fixpoint may_mat (e : gexpr) : bool :=
+  match e with
+  | G2 OOuter _ _ | G1 OHessian _ => true
+  | G1 OGrad z => has_vec z
+  | GAdd l | GMul l => existsb may_mat l
+  | G1 (OJump | OAvg | OMinus | OPlus) z => may_mat z
+  | _ => false
+  end.
+
 (* isinstance(a, (Tuple, VectorFunction)) -- tuples are not in the grammar *)
 Definition is_vecfun (e : gexpr) : bool := match e with GVF _ => true | _ => false end.
 
@@ -348,7 +372,9 @@ Section Model.
                 let b := gmul args2 in
                 let c := gmul [gmul c1; gmul c2] in
                 match o with
-                | ODot | OInner => if sgt a b then Ok (gmul [c; G2 o b a]) else Ok (gmul [c; G2 o a b])
+                | ODot =>        (* canonical order only when neither factor may be matrix-valued *)
+                    if negb (may_mat a || may_mat b) && sgt a b then Ok (gmul [c; G2 o b a]) else Ok (gmul [c; G2 o a b])
+                | OInner => if sgt a b then Ok (gmul [c; G2 o b a]) else Ok (gmul [c; G2 o a b])
                 | OCross => if sgt a b then Ok (gmul [gneg c; G2 o b a]) else Ok (gmul [c; G2 o a b])
                 | _ => Ok (gmul [c; G2 o a b])
                 end
@@ -630,6 +656,18 @@ Section Model.
         end
     end.
 
+  (* ============================================================ components of a restriction *)
+  (* MinusInterfaceOperator.__getitem__ / PlusInterfaceOperator.__getitem__ :  type(self)(self.args[0][key])
+     on self = minus(E) / plus(E) ([o] = the class of self, E = its argument).  minus(E) is such an object only when
+     it was not rewritten; inside the grammar its argument is subscriptable when it is a vector function (F[i], any i:
+     no range check); a sum or a product (minus(F + G), minus(2*F) = 2*minus(F)) is not subscriptable: TypeError.
+     The result keeps the side of self: plus(F)[i] = plus(F[i]). *)
+  Definition mk_getitem (o : op1) (e : gexpr) (i : nat) : res :=
+    match e with
+    | GVF n => Ok (G1 o (GComp n i))
+    | _ => Raise
+    end.
+
   (* ============================================================ entry points *)
   Definition mk1 (fuel : nat) (o : op1) (e : gexpr) : res :=
     match o with
@@ -728,7 +766,9 @@ Section Model.
                    | x, y =>
                        let pulled := match (filter comm fa ++ filter (pulled2 o) fb)%list with [] => "" | _ => "-factors" end in
                        match o with
-                       | ODot | OInner | OCross => if sgt (gmul x) (gmul y) then "swap" ++ pulled else "keep" ++ pulled
+                       | ODot => if negb (may_mat (gmul x) || may_mat (gmul y)) && sgt (gmul x) (gmul y)
+                                 then "swap" ++ pulled else "keep" ++ pulled
+                       | OInner | OCross => if sgt (gmul x) (gmul y) then "swap" ++ pulled else "keep" ++ pulled
                        | _ => "keep" ++ pulled
                        end
                    end
@@ -846,9 +886,23 @@ Section Den.
               end
     end.
 
+  (* Dot on mixed shapes (core/algebra.py Dot_2d / Dot_3d): matrix . vector contracts the COLUMN index of the matrix,
+     vector . matrix its ROW index; both are vectors.  (Core/Classical.v only has the vector . vector product
+     [dot_v]; these two are defined here.)  matrix . matrix has no meaning (the library reads both matrices as
+     flat vectors). *)
+  Definition sc_of (t : tensor) : texpr := match t with Sc x => x | _ => TZ 0 end.
+  Definition matvec (A : list (list texpr)) (v : list texpr) : list texpr :=
+    map (fun row => sc_of (dot_v row v)) A.
+  Definition vecmat (v : list texpr) (A : list (list texpr)) : list texpr :=
+    map (fun j => sc_of (dot_v v (map (fun row => nth j row (TZ 0)) A))) (seq0 (length v)).
   Definition den2 (o : op2) (a b : option tensor) : option tensor :=
     match o, a, b with
     | ODot, Some (Vec l), Some (Vec m) => if Nat.eqb (length l) (length m) then Some (dot_v l m) else None
+    | ODot, Some (Mat A), Some (Vec m) =>
+        if forallb (fun row => Nat.eqb (length row) (length m)) A then Some (Vec (matvec A m)) else None
+    | ODot, Some (Vec l), Some (Mat B) =>
+        if Nat.eqb (length B) (length l) && forallb (fun row => Nat.eqb (length row) (length l)) B
+        then Some (Vec (vecmat l B)) else None
     | OCross, Some (Vec l), Some (Vec m) => cross_v d l m
     | OInner, Some (Vec l), Some (Vec m) => if Nat.eqb (length l) (length m) then Some (dot_v l m) else None
     | OInner, Some (Mat A), Some (Mat B) => Some (inner_m A B)
@@ -938,6 +992,8 @@ Definition shape1 (d : nat) (o : op1) (a : option shape) : option shape :=
 Definition shape2 (d : nat) (o : op2) (a b : option shape) : option shape :=
   match o, a, b with
   | ODot, Some ShV, Some ShV => Some ShS
+  | ODot, Some ShM, Some ShV => Some ShV          (* matrix . vector *)
+  | ODot, Some ShV, Some ShM => Some ShV          (* vector . matrix *)
   | OCross, Some ShV, Some ShV => match d with 2 => Some ShS | 3 => Some ShV | _ => None end
   | OInner, Some ShV, Some ShV => Some ShS
   | OInner, Some ShM, Some ShM => Some ShS
@@ -996,6 +1052,23 @@ Fixpoint inner_flag (d : nat) (m : bool) (a : gexpr) : bool :=
   | _ => Bool.eqb (is_mat d (gmul (filter (fun i => negb (is_comm d i)) [a]))) m
   end.
 
+(* Dot: matrix . vector and vector . matrix are different products.  Dot.__new__ imposes its canonical order (by str)
+   only when neither factor may be matrix-valued ([may_mat]); what the soundness theorem still needs is that the
+   non-commutative part of every summand has the kind (matrix or not) of the whole argument *)
+Definition shape_stable (d : nat) (a : gexpr) : bool := inner_flag d (is_mat d a) a.
+
+(* structurally not matrix-valued (sums and products of non-matrices; the matrix-valued operators are Grad of a
+   non-scalar, Hessian and Outer) *)
+Fixpoint nomat (d : nat) (e : gexpr) : bool :=
+  match e with
+  | GAdd l | GMul l => forallb (nomat d) l
+  | G1 OGrad z => is_scalar d z
+  | G1 OHessian _ => false
+  | G1 (OJump | OAvg | OMinus | OPlus) z => nomat d z
+  | G2 OOuter _ _ => false
+  | _ => true
+  end.
+
 (* sympy-canonical exponents: in a sum only the first term is a number (and it is not followed by a lone
    number / a sum starting with a number) -- what sympy's Add guarantees *)
 Definition head_num (e : gexpr) : bool :=
@@ -1035,7 +1108,7 @@ Fixpoint div_guard (d : nat) (e : gexpr) : bool :=
           if is_vecfun x then f_ok d y else if is_vecfun y then f_ok d x else true
       | _ => true
       end
-  | G2 OCross a b => Nat.eqb d 3 && cs_ok d a && cs_ok d b
+  | G2 OCross a b => Nat.eqb d 3 && cs_ok d a && cs_ok d b && inner_flag d false a && inner_flag d false b
   | G1 OCurl _ => negb (Nat.eqb d 2)
   | _ => true
   end.
